@@ -221,7 +221,13 @@ func c07Run(tier string, seed int64, idx int) *core.Result {
 			_, lrErr = cr.Stream.Recv()
 			// later sends only where the API permits them and the handler consumes its input
 			// (a body nobody reads would sit in front of the reset: head-of-line by design)
-			if c.Scn.Name == "bidi-pingpong" || c.Scn.Name == "client-sendall" {
+			halfClosed := false
+			for _, e := range cr.Rec.Evs {
+				if e.Op == "closeSend" {
+					halfClosed = true // SendMsg after CloseSend is API misuse
+				}
+			}
+			if (c.Scn.Name == "bidi-pingpong" || c.Scn.Name == "client-sendall") && !halfClosed {
 				lsErr = cr.Stream.Send([]byte("late"))
 				if lsErr == nil {
 					lsErr = cr.Stream.Send([]byte("late2"))
